@@ -114,6 +114,12 @@ func heartbeatCases() []raceCase {
 		mk("labels", up, func() []*step { return one(&step{Cmd: "labels", ID: rX, Labels: lbl("rack", "r1"), Force: true}) }),
 		mk("weight", up, func() []*step { return one(&step{Cmd: "weight", ID: rX, LW: 2, RW: 0.5}) }),
 		mk("reload-leader-change", up, func() []*step { return one(&step{Cmd: "reloadlc"}) }),
+		// the first heartbeat after the registration (no reload in between) flushes as well
+		mk("remove/first-heartbeat-after-registration", func() []*step { return []*step{putX()} }, func() []*step { return one(&step{Cmd: "remove", ID: rX, Destroyed: true}) }),
+		mk("bury/first-heartbeat-after-registration", func() []*step { return []*step{putX(), {Cmd: "remove", ID: rX}} }, func() []*step { return one(&step{Cmd: "bury", ID: rX}) }),
+		mk("put-same-id/first-heartbeat-after-registration", func() []*step { return []*step{putX()} }, func() []*step {
+			return one(&step{Cmd: "put", Via: "grpc", ID: rX, Addr: "tikv-b:20160", Version: "5.0.1", Labels: lbl("zone", "z2")})
+		}),
 	}
 }
 
